@@ -24,7 +24,12 @@ def run(res, tier, replay):
     cases = []; meta = []
     for i in range(n):
         try:
-            if i % 5 == 4:
+            if i == 7 or (i % 100 == 57):
+                # more than 1024 chunks (chunk numbers above any small table size): tiny chunks, thousands of short names
+                f0 = [(b"/n%04d" % j, b"") for j in range(4200)]
+                p = dict(chunk_size=64, density=1, with_index=True, version=3)
+                chm, exp = chmfmt.build(f0, (), rng, **p)
+            elif i % 5 == 4:
                 # tiny chunks: deep indexes
                 used = set(); f0 = [(chmlib.rand_name(rng, used, maxlen=5), b"") for _ in range(rng.choice([5, 30, 120]))]
                 p = dict(chunk_size=rng.choice([40, 48, 64]), density=rng.choice([0, 1, 2]), with_index=True, version=3)
@@ -34,6 +39,7 @@ def run(res, tier, replay):
         except ValueError: continue
         names = sorted(exp.keys(), key=chmfmt.sort_key)
         look = [("present", nm) for nm in rng.sample(names, min(len(names), 25))]
+        if len(names) > 2000: look += [("present", nm) for nm in names[:600:2]] + [("present", nm) for nm in rng.sample(names, 200)]
         look += chmlib.find_names(rng, names, 12)
         rng.shuffle(look)
         look = look + look[:8]          # again, now from the cache
